@@ -419,13 +419,20 @@ func (g *Gen) flood() {
 	for _, m := range members {
 		ids = append(ids, fmt.Sprint(m.Idx))
 	}
+	nv := len(g.out.Stats.Violations)
 	if len(members) <= 3 && g.r.Chance(1, 2) || g.r.Chance(1, 4) {
 		g.emit(fmt.Sprintf("race3 %s y=%d", strings.Join(ids, " "), 1+g.r.Intn(2)))
 	} else {
 		g.emit("flood " + strings.Join(ids, ","))
 	}
+	if len(g.out.Stats.Violations) > nv {
+		g.stop = true
+		return
+	}
 	if g.r.Chance(1, 2) {
-		g.emit("reopen")
+		if g.emit("reopen") == "fail" {
+			g.stop = true // the node is gone
+		}
 	} else {
 		g.emit("cmpcopy")
 	}
